@@ -200,6 +200,7 @@ func (sc *scen) typeMismatch() bool {
 			if g.chance(0.5) {
 				sc.place(b2, id, "F", p, sc.sd, maxB(quo(S, bi(10)), bi(1))) // a valid bid first
 			}
+			accepted := false
 			combos := [][2]string{{"M", "sell"}, {"W", "pay"}, {"M", "pay"}, {"W", "sell"}}
 			g.r.Shuffle(len(combos), func(i, j int) { combos[i], combos[j] = combos[j], combos[i] })
 			for _, c := range combos[:g.between(2, 4)] {
@@ -220,10 +221,27 @@ func (sc *scen) typeMismatch() bool {
 						amt = bi(1)
 					}
 				}
-				sc.place(b, id, c[0], p, denom, amt)
+				if sc.place(b, id, c[0], p, denom, amt) {
+					accepted = true
+				}
 				g.st.TypeMismatchValid++
 				played = true
 				sc.noise()
+			}
+			// a bid of the wrong type was ACCEPTED (it must not be): sell the published remainder
+			// out with a valid bid, so that the settlement shows what the stray bid does to the supply
+			if accepted {
+				if a := sc.auc(id); a != nil && a.remaining.Sign() > 0 {
+					sc.kadd(id, capEntry{b2, S})
+					room := sub(S, bidTotal(a, g.prev.bids[id], b2))
+					if room.Cmp(a.remaining) > 0 {
+						room = a.remaining
+					}
+					if room.Sign() > 0 {
+						sc.place(b2, id, "F", p, sc.sd, room)
+					}
+				}
+				sc.block(end)
 			}
 		}
 	}
